@@ -72,6 +72,8 @@ def cases(draw):
     return {
         "ny": ny, "nx": nx, "disps": disps, "subpix": subpix, "type": draw(st.sampled_from(["min", "max"])),
         "tile": tile, "patches": patches, "invalid": inv, "nconf": nconf, "mask_vals": mask_vals,
+        # the volume may announce a window offset (attribute offset_row_col); its frame carries whatever flags it carries
+        "off": draw(st.sampled_from([0, 0, 1, 2])),
     }
 
 
@@ -119,7 +121,7 @@ def body(ctx: Ctx, p: dict) -> None:
 
     cv_np, mask, conf = materialise(p)
     disps = p["disps"]
-    cvds = build.cost_volume_dataset(cv_np, disps, p["type"], 0, p["subpix"], mask, conf or None)
+    cvds = build.cost_volume_dataset(cv_np, disps, p["type"], p.get("off", 0), p["subpix"], mask, conf or None)
     before = build.snapshot(cvds)
     inv_cfg = p["invalid"]
     inv_val = math.nan if inv_cfg in ("NaN", "NaN-string") else float(inv_cfg)
@@ -174,6 +176,8 @@ def body(ctx: Ctx, p: dict) -> None:
     if p["subpix"] != 1:
         classes.append("subpixel-axis")
     ctx.judged += int(cv_np.shape[0] * cv_np.shape[1])
+    if p.get("off"):
+        classes.append("window-offset>0")
     if p.get("long"):
         classes.append("axis-longer-than-255-samples" if len(p["disps"]) > 255 else "axis-255-samples")
     ctx.case(p, nontrivial=bool(ties.any() and allnan_px.any() and regular.any()), classes=classes)
